@@ -2653,8 +2653,9 @@ impl Compiler {
             mutable: true, // Enums are mutable like objects
         });
 
-        // Track the current numeric value for auto-increment
-        let mut current_value: i64 = 0;
+        // Track the current numeric value for auto-increment. TypeScript computes
+        // it in doubles: a member without initializer is the previous constant + 1.
+        let mut current_value: f64 = 0.0;
         let value_reg = self.builder.alloc_register()?;
         let key_reg = self.builder.alloc_register()?;
 
@@ -2671,18 +2672,13 @@ impl Compiler {
 
                 // Try to compute the numeric value for auto-increment
                 // This is a simplified version - in reality, we'd need const evaluation
-                if let crate::ast::Expression::Literal(lit) = init
-                    && let crate::ast::LiteralValue::Number(n) = &lit.value
-                {
-                    current_value = *n as i64 + 1;
+                if let Some(n) = Self::enum_numeric_literal(init) {
+                    current_value = n + 1.0;
                 }
             } else {
                 // Use auto-increment value
-                self.builder.emit(Op::LoadInt {
-                    dst: value_reg,
-                    value: current_value as i32,
-                });
-                current_value += 1;
+                self.builder.emit_load_number(value_reg, current_value)?;
+                current_value += 1.0;
             }
 
             // Add this member to prior members for subsequent initializers
@@ -2735,6 +2731,27 @@ impl Compiler {
         self.builder.free_register(value_reg);
         self.builder.free_register(enum_obj);
         Ok(())
+    }
+
+    /// Value of a numeric literal initializer (`3` or `-3`), if the expression is one
+    fn enum_numeric_literal(init: &crate::ast::Expression) -> Option<f64> {
+        use crate::ast::{Expression, LiteralValue, UnaryOp};
+        match init {
+            Expression::Literal(lit) => match &lit.value {
+                LiteralValue::Number(n) => Some(*n),
+                _ => None,
+            },
+            Expression::Unary(unary) if unary.operator == UnaryOp::Minus => {
+                match unary.argument.as_ref() {
+                    Expression::Literal(lit) => match &lit.value {
+                        LiteralValue::Number(n) => Some(-*n),
+                        _ => None,
+                    },
+                    _ => None,
+                }
+            }
+            _ => None,
+        }
     }
 
     /// Compile a namespace declaration
